@@ -219,7 +219,12 @@ func judge06(c *Case, wr *worldRun, rc *refCache) []verdict {
 				failed = fmt.Sprintf("piece at call %d: %s (%s)", ci, res.Kind, clip(res.Err, 120))
 				break
 			}
-			if y := res.Out["Y"]; y != nil {
+			// the caller concatenates the pieces once the session is over: read Y as it is then
+			outs := res.Out
+			if res.OutLate != nil {
+				outs = res.OutLate
+			}
+			if y := outs["Y"]; y != nil {
 				ycat = append(ycat, y.Bits...)
 			}
 			last = res
@@ -249,11 +254,15 @@ func judge06(c *Case, wr *worldRun, rc *refCache) []verdict {
 					break
 				}
 			}
-			if !val.Equal(ref.Out["Y_h"], last.Out["Y_h"]) {
-				add("split-differs:"+s.Kind+":Y_h", "final hidden state: "+val.Diff(ref.Out["Y_h"], last.Out["Y_h"]))
+			lo := last.Out
+			if last.OutLate != nil {
+				lo = last.OutLate
 			}
-			if s.Kind == "LSTM" && !val.Equal(ref.Out["Y_c"], last.Out["Y_c"]) {
-				add("split-differs:"+s.Kind+":Y_c", "final cell state: "+val.Diff(ref.Out["Y_c"], last.Out["Y_c"]))
+			if !val.Equal(ref.Out["Y_h"], lo["Y_h"]) {
+				add("split-differs:"+s.Kind+":Y_h", "final hidden state: "+val.Diff(ref.Out["Y_h"], lo["Y_h"]))
+			}
+			if s.Kind == "LSTM" && !val.Equal(ref.Out["Y_c"], lo["Y_c"]) {
+				add("split-differs:"+s.Kind+":Y_c", "final cell state: "+val.Diff(ref.Out["Y_c"], lo["Y_c"]))
 			}
 		}
 	}
